@@ -113,8 +113,12 @@ def clock_concurrent(c):
     rounds = 8 if c.tier == "quick" else 120
     c.vh(["clock-conc", out, rounds], timeout=1800)
     recs = [json.loads(l) for l in open(out)]
-    if len(recs) != 2 * rounds or min(r["increments"] for r in recs) < 100:
+    busy = [r for r in recs if r["increments"] >= 100]     # a run whose incrementers hardly ran (a very busy machine) says nothing
+    if len(recs) != 2 * rounds or len(busy) < rounds:
         raise Broken("the concurrent clock runs did not run: %s" % recs[:2])
+    if len(busy) < len(recs):
+        c.notes.append("%d of %d concurrent clock runs had fewer than 100 increments and were set aside" % (len(recs) - len(busy), len(recs)))
+    recs = busy
     c.cov["clock_concurrent"] = {"runs": len(recs), "witnesses": sum(r["witnesses"] for r in recs), "increments": sum(r["increments"] for r in recs)}
     c.cov["vectors_executed"] = c.cov.get("vectors_executed", 0) + len(recs)
     seen = set()
